@@ -611,11 +611,61 @@ class C13(Property):
                                                       self.flags["join_atomic"])]
 
     def extra(self, ctx):
-        with concurrent.futures.ThreadPoolExecutor(max_workers=3) as ex:
+        with concurrent.futures.ThreadPoolExecutor(max_workers=4) as ex:
             a = ex.submit(self._extra_reload, ctx)
             b = ex.submit(self._extra_kube, ctx)
             c = ex.submit(self._extra_kubebuild, ctx)
-            return a.result() + b.result() + c.result()
+            d = ex.submit(self._extra_race, ctx)
+            return a.result() + b.result() + c.result() + d.result()
+
+    def _extra_race(self, ctx):
+        """Free-running monitors built with -race (a few seconds each):
+        1. the public discov API on the real cluster over the fake etcd: registrations come and go (update in place,
+           shared values, deletes, closed / cancelled streams, reconnect reloads, partial catch-up batches) while three
+           goroutines read Values() of an exclusive and a non-exclusive Subscriber, change listeners read Values() from
+           inside the notification and subscribers of the same key are created and closed; at the end both views must
+           be the registrations;
+        2. the kube EventHandler used from two goroutines, as kubeBuilder.Build does (its own Get + Update next to the
+           informer's OnAdd / OnUpdate / OnDelete).
+        A data race report (a lock released too early, a missing lock) is a failure: the sequential families cannot
+        see the locking discipline."""
+        files = dict(FILES)
+        files["core/discov/verif_c13_race_test.go"] = os.path.join(OV, "discov", "verif_c13_race_test.go")
+        files["zrpc/resolver/internal/kube/verif_c13_race_test.go"] = os.path.join(OV, "kube", "verif_c13_race_test.go")
+        fails = []
+
+        def report(out):
+            i = out.find("WARNING: DATA RACE")
+            return out[i:i + 2500]
+
+        rc, out, rs = vlib.go_test_overlay("./core/discov", files, "TestVerifC13Race$", [], tag="c13rc1", timeout=300, race=True)
+        if "WARNING: DATA RACE" in out:
+            fails.append({"what": "data race in core/discov while Values() is read next to registry events (go test -race, "
+                                  "free-running readers / subscribers coming and going on the real cluster over the fake etcd)",
+                          "replay": {"race": report(out), "result": rs}})
+        elif rc != 0 or len(rs) != 1:
+            raise ExecError("c13 race monitor (discov) rc=%s: %s" % (rc, out[-1500:]))
+        else:
+            r = rs[0]
+            if not (r.get("quiet") and r.get("valuesA") == r.get("want") and set(r.get("valuesB") or []) <= set(r.get("want") or [])
+                    and r.get("valuesA")):
+                fails.append({"what": "free-running use of the public discov API: at the end Values() is not the set of registered "
+                                      "values (expected %s)" % r.get("want"), "replay": r})
+            else:
+                ctx.notes.append("race monitor (discov): no data race, Values()=%s after %d notifications" % (r["valuesA"], r["notes"]))
+        rc, out, rs = vlib.go_test_overlay("./zrpc/resolver/internal/kube", files, "TestVerifC13KubeRaceDetector$", [], tag="c13rc2",
+                                           timeout=300, race=True)
+        if "WARNING: DATA RACE" in out:
+            fails.append({"what": "data race in the kube EventHandler used from two goroutines (Build's Update next to the "
+                                  "informer's events; go test -race)", "replay": {"race": report(out), "result": rs}})
+        elif rc != 0 or len(rs) != 1:
+            raise ExecError("c13 race monitor (kube) rc=%s: %s" % (rc, out[-1500:]))
+        elif rs[0].get("last") != ["7", "8"]:
+            fails.append({"what": "kube EventHandler used from two goroutines: the last publication is not the last update "
+                                  "(expected [7 8])", "replay": rs[0]})
+        else:
+            ctx.notes.append("race monitor (kube): no data race, %d publications" % rs[0]["pubs"])
+        return fails
 
     KUBE_EXPECT = [["10.0.0.1", "10.0.0.2"], ["10.0.0.2", "10.0.0.3"], ["10.0.0.3"], [], ["10.0.0.4", "10.0.0.5"]]
 
